@@ -1,6 +1,7 @@
 ---------------------------- MODULE CallbackTrace ----------------------------
 (* C18 (direction V).  The harness records one block per SendWithCallbacks operation:
-     {"ev":"reset","t":id,"cbs":[{"contains":[chars],"notcontains":[chars],"re":"",  "insens":b,"once":b,"complete":b,"reset":b}, ...]}
+     {"ev":"reset","t":id,"cbs":[{"contains":[chars],"notcontains":[chars],"re":"",  "insens":b,"once":b,"complete":b,"reset":b}, ...],
+      "spent":[k, ...]}                                  callbacks of this list that ran in an EARLIER operation with the same list (the once mark belongs to the callback)
      {"ev":"fire","i":k,"arg":[chars]}                 callback k (1-based) ran with this argument
      {"ev":"return","class":c,"result":[chars],"stream":[chars]}   stream = everything the device delivered during the operation (CR removed)
    and this module decides membership in the firing rule:
@@ -40,7 +41,7 @@ Trig(cb, acc) ==
 
 Init == l = 1 /\ cbs = <<>> /\ resetAt = 0 /\ lastP = 0 /\ fired = {} /\ completed = FALSE /\ pendingOnce = FALSE /\ fullSeen = <<>>
 Reset == /\ l <= Len(Trace) /\ Ev.ev = "reset" /\ l' = l + 1
-         /\ cbs' = Ev.cbs /\ resetAt' = 0 /\ lastP' = 0 /\ fired' = {} /\ completed' = FALSE /\ pendingOnce' = FALSE /\ fullSeen' = <<>>
+         /\ cbs' = Ev.cbs /\ resetAt' = 0 /\ lastP' = 0 /\ fired' = {Ev.spent[k] : k \in 1..Len(Ev.spent)} /\ completed' = FALSE /\ pendingOnce' = FALSE /\ fullSeen' = <<>>
 \* the stream is only known at the end; a firing's argument carries its own content, so we check it against the running
 \* concatenation: arg must extend what was seen since the last reset
 Fire == /\ l <= Len(Trace) /\ Ev.ev = "fire" /\ l' = l + 1 /\ ~completed /\ ~pendingOnce
